@@ -17,7 +17,9 @@ LEVEL = ("containment mechanisms only (byte equality of two trees is a relation 
          "dependants; the threaded Schemas/Parameters state is only rebound from the result of a step that received it (no stale "
          "snapshot); an item's failure continues the loop, never ends it; the registry does not alias the caller's roots set; the "
          "registries are written in place only by the frozen table of legitimate writers (everything else registers on an evolved "
-         "copy); document-named output directories are rebuilt from empty.")
+         "copy); document-named output directories are rebuilt from empty; a property object that a step was handed (a parameter of a "
+         "property type, an element of the registry) is written in place only by its initialiser or by process_model completing the "
+         "registered model after its last refusal; a local accumulator that holds recorded diagnostics is returned entire.")
 
 CONTAIN_LOOPS = {
     "parser.openapi.EndpointCollection.from_data", "parser.openapi.Endpoint._add_responses", "parser.bodies.body_from_data",
@@ -55,6 +57,14 @@ def run(rep: Report, ctx: Any) -> str:
                       "before it is built, so it can neither fail its container nor leave classes behind (which results of the step are "
                       "fallible products is read off its declared return type; the product is followed through the locals, collections "
                       "and loop variables that come to hold it)")
+
+    rep.rule("R08.11", PROPERTY_RULE_TEXT)
+    rep.rule("R08.12", "the diagnostic of an omitted piece reaches the caller: where a parser function records diagnostics in a local "
+                       "accumulator - an error value put into a container it created empty, or into a field declared as a list of errors "
+                       "of an object it keeps in such a container - every return that hands the accumulator back hands it back entire: the "
+                       "accumulator itself under any local name, a whole copy, or as a whole argument - never a comprehension with a "
+                       "condition, a slice, filter(), or after entries were removed (an entry dropped from it takes the diagnostics "
+                       "stored on it along, and the piece is omitted without a word)")
 
     # ---- R08.1 -----------------------------------------------------------------------------------------------------
     pfr = ix.func("properties._property_from_ref")
@@ -189,6 +199,10 @@ def run(rep: Report, ctx: Any) -> str:
     inplace.check(rep, ctx, "R08.9")
     # ---- R08.10: what this run omits does not survive from an earlier run ------------------------------------------------------------
     _nothing_stale_remains(rep, ctx)
+    # ---- R08.11: property objects are shared values -----------------------------------------------------------------------------------
+    _property_objects_not_written(rep, ctx)
+    # ---- R08.12: recorded diagnostics are returned entire -----------------------------------------------------------------------------
+    _diagnostics_returned_entire(rep, ix)
     rep.not_decided += ["byte equality of the output trees with and without the bad piece"]
     return LEVEL
 
@@ -1006,3 +1020,469 @@ def _products_not_dropped(rep: Report, ix: Any, cfgs: dict[str, CFG]) -> None:
                           "without its product or error being handed on: a piece that does not contribute can damage what does not depend on it",
                           where(f, st), lhs=sorted(set(dropped))[:4], rhs="every end of the iteration after the build hands the product on")
     rep.floor("build_steps_in_item_loops", n_p, 3)
+
+
+# ---- R08.11: property objects are shared values ------------------------------------------------------------------------------------
+
+PROPERTY_RULE_TEXT = (
+    "property objects are shared values: once built, a property object is held by the registry (classes_by_name / classes_by_reference), "
+    "by every model that lists it and by every model that inherits it through allOf - evolve() copies the holder, not what it holds - so "
+    "a step that wants a changed property makes a copy. Every in-place write (attribute assignment, augmented assignment, del, setattr / "
+    "object.__setattr__, a mutating method of a container the object holds, a call of a method of the property classes that writes "
+    "through self; reached through a local alias, an element or loop variable of a container, chain(), cast()) whose receiver is (inside) "
+    "a property object the function was handed - a parameter declared with a property type, an element of the registry - is made by one "
+    "of the writers of the frozen table: the initialiser of the object (it is not shared yet), or the completion of the registered "
+    "model by process_model, after which no refusal of that function can follow. A write through `self` in any other method is judged "
+    "at each call of the method. Anything else reaches the pieces that share the object: a piece that is dropped afterwards has "
+    "already changed them, and what remains refers to what was removed")
+
+INITIALISERS = {"__init__", "__new__", "__attrs_post_init__", "__post_init__", "model_post_init"}
+
+# the frozen table: today's legitimate in-place writers of a property object they were handed (initialisers apart), confirmed by reading /repo
+# entry function (the writer is it, or a private helper / a method it delegates to)   fields   why this writer may
+PROPERTY_COMPLETERS: tuple[tuple[str, tuple[str, ...], str], ...] = (
+    ("model_property.process_model",
+     ("required_properties", "optional_properties", "additional_properties", "relative_imports", "lazy_imports"),
+     "second phase of the two-phase model build: ModelProperty.build registers the model with these fields unset (declared `| None`) so that "
+     "models can refer to each other, and process_model fills them in on the registered object once every fallible step for the model has "
+     "succeeded - the object is the piece being built, not one it shares with another piece, and no refusal can follow the write"),
+)
+
+
+def _denotes_property(v: ast.AST | None, names: set[str], depth: int = 0) -> bool:
+    """the module-level value defines a type that admits a property class: a union alias, a TypeVar bound / constrained to one"""
+    v = _annotation(v)
+    if v is None or depth > 4:
+        return False
+    if isinstance(v, ast.Call) and call_name(v).rsplit(".", 1)[-1] == "TypeVar":
+        return any(_denotes_property(a, names, depth + 1) for a in [*v.args[1:], *[k.value for k in v.keywords if k.arg == "bound"]])
+    return bool(_type_names(v) & names)
+
+
+def _property_types(ix: Any) -> tuple[list[Any], set[str]]:
+    """(the property classes, every name that denotes a property type: the classes, aliases of unions of them, TypeVars bound to them)"""
+    proto = ix.cls("PropertyProtocol")
+    classes = [proto, *ix.subclasses(proto)]
+    names = {k.name for k in classes}
+    changed = True
+    while changed:
+        changed = False
+        for m in ix.modules.values():
+            for name, v in m.variables.items():
+                if name not in names and _denotes_property(v, names):
+                    names.add(name)
+                    changed = True
+    return classes, names
+
+
+def _mentions_type(ann: ast.AST | None, names: set[str]) -> bool:
+    """the annotation mentions one of the type names, at any depth (list[Property], dict[str, Property] | None, "ModelProperty")"""
+    ann = _annotation(ann)
+    if ann is None:
+        return False
+    for n in ast.walk(ann):
+        if isinstance(n, ast.Constant) and isinstance(n.value, str):
+            inner = _annotation(n)
+            if inner is not None and not isinstance(inner, ast.Constant) and _mentions_type(inner, names):
+                return True
+        if isinstance(n, (ast.Name, ast.Attribute)) and (dotted(n) or "").rsplit(".", 1)[-1] in names:
+            return True
+    return False
+
+
+def _property_objects_not_written(rep: Report, ctx: Any) -> None:
+    ix = ctx.py
+    base_fn = getattr(inplace, "_Fn", None)
+    rep.require(callable(getattr(inplace, "analysis", None)) and isinstance(base_fn, type),
+                "the may-alias machinery of the in-place rule (inplace.analysis / inplace._Fn), which R08.11 evaluates views with")
+    an = inplace.analysis(ctx)
+    classes, tnames = _property_types(ix)
+    cnames = {k.name for k in classes}
+    pfields: set[str] = set()
+    for k in classes:
+        pfields |= set(ix.all_fields(k))
+    rep.require(pfields, "declared fields of the property classes")
+    elsewhere = {name for k in ix.classes.values() if k.name not in cnames for name in k.fields}
+    pmethods = {m for k in classes for m in k.methods}
+    other_methods = {m for k in ix.classes.values() if k.name not in cnames for m in k.methods}
+
+    class _PFn(base_fn):  # type: ignore[misc, valid-type]
+        """views as the in-place rule computes them, with the elements of chain(a, b, ...) being the elements of a, b, ..."""
+
+        def elements(self, it: ast.AST, st: ast.stmt, path: tuple[int, ...], depth: int = 0) -> set[Any]:
+            if isinstance(it, ast.Call) and depth <= 6 and call_name(it).rsplit(".", 1)[-1] == "chain" and it.args:
+                out: set[Any] = set()
+                for a in it.args:
+                    out |= self.elements(a.value, st, path, depth + 1) if isinstance(a, ast.Starred) else self.elements(a, st, path, depth)
+                return out
+            return super().elements(it, st, path, depth)
+
+    fns: dict[str, Any] = {}
+
+    def pfn(f: FuncInfo) -> Any:
+        if f.qual not in fns:
+            fns[f.qual] = _PFn(an, f)
+        return fns[f.qual]
+
+    def self_of(f: FuncInfo) -> str | None:
+        return f.params[0].arg if f.cls is not None and f.cls.name in cnames and f.kind in ("method", "property") and f.params else None
+
+    def field_of(v: Any, extra: tuple[str, ...] = ()) -> str | None:
+        """the property field that a write at this view (+ the attributes a called method writes) changes, None when the view does not
+        lead into a property object: <parameter>[...].<field>..., <registry>.<container>[...].<field>..."""
+        steps = tuple(v.steps) + extra
+        if v.kind in ("S", "U"):   # U: an object of unknown origin on which a field that only the registries have is read
+            if not steps or not steps[0].startswith(".") or steps[0][1:] not in (an.fields if v.kind == "S" else an.exclusive) or \
+                    len(steps) < 2 or steps[1] != "[]":
+                return None
+            steps = steps[1:]
+        elif v.kind != "P":
+            return None
+        attrs = [s[1:] for s in steps if s.startswith(".")]
+        if not attrs or (attrs[0] not in pfields and attrs[0] != "?"):
+            return None
+        return attrs[-1] if attrs[-1] in pfields or attrs[-1] == "?" else attrs[0]
+
+    def typed_root(f: FuncInfo, v: Any, field: str, method: str | None = None) -> bool:
+        """the view starts at a property object the function was handed: the registry, a parameter declared with (a container of) a
+        property type - or an undeclared parameter on which a field / method that only the property classes have is used"""
+        if v.kind in ("S", "U"):
+            return True
+        p = next((p_ for p_ in f.params if p_.arg == v.name), None)
+        if p is None or (f.cls is not None and f.kind in ("method", "classmethod", "property") and f.params and p is f.params[0]):
+            return False   # (self / cls: the class is known - a property class writing through self was dealt with as setter / initialiser)
+        if p.annotation is not None and _mentions_type(p.annotation, tnames):
+            return True
+        if p.annotation is None or _type_names(p.annotation) & {"Any", "object"}:
+            return (field in pfields - elsewhere) or (method is not None and method in pmethods - other_methods)
+        return False
+
+    def attribute_stores(fn: Any) -> list[tuple[ast.stmt, ast.AST, ast.AST, str]]:
+        """(statement, node, object, attribute) of every attribute binding / deletion and every setattr-family call of the function"""
+        out: list[tuple[ast.stmt, ast.AST, ast.AST, str]] = []
+        lcs = Locals(fn.f.node)
+
+        def target(st: ast.stmt, t: ast.AST) -> None:
+            if isinstance(t, (ast.Tuple, ast.List)):
+                for x in t.elts:
+                    target(st, x)
+            elif isinstance(t, ast.Starred):
+                target(st, t.value)
+            elif isinstance(t, ast.Attribute):
+                out.append((st, t, t.value, t.attr))
+
+        for st in fn.cfg.stmts():
+            if isinstance(st, (ast.Assign, ast.Delete)):
+                for t in st.targets:
+                    target(st, t)
+            elif isinstance(st, (ast.AnnAssign, ast.AugAssign, ast.For, ast.AsyncFor)) and getattr(st, "value", True) is not None:
+                target(st, st.target)
+            for c in walk_own(st):
+                if isinstance(c, ast.NamedExpr):
+                    target(st, c.target)
+                if isinstance(c, ast.Call) and call_name(c).rsplit(".", 1)[-1] in ("setattr", "delattr", "__setattr__", "__delattr__") and len(c.args) >= 2:
+                    a = c.args[1]
+                    if isinstance(a, ast.Constant) and isinstance(a.value, str):
+                        names = [a.value]
+                    else:   # a computed name: the field names among the string literals its locals are made of, else unknown
+                        lits = {x.value for nm in names_in(a) for v in lcs.values_of(nm) for x in ast.walk(v)
+                                if isinstance(x, ast.Constant) and isinstance(x.value, str)}
+                        names = sorted(lits & pfields) or ["?"]
+                    out += [(st, c, c.args[0], nm) for nm in names]
+        return out
+
+    def direct_writes(f: FuncInfo) -> list[tuple[ast.stmt, ast.AST, Any, str, str]]:
+        """(statement, node, view of the receiver, property field, operation) of the in-place writes the function makes itself inside a
+        property object: attribute bindings (the view is that of the object, however long the way to it), and writes into a container
+        that the object holds (as the in-place rule lists them)"""
+        fn = pfn(f)
+        out: list[tuple[ast.stmt, ast.AST, Any, str, str]] = []
+        for st, node, obj, attr in attribute_stores(fn):
+            for v in sorted(fn.views(obj, st), key=repr):
+                fld = field_of(v, ("." + attr,)) if v.kind != "O" else None
+                if fld is not None:
+                    out.append((st, node, v, fld, "rebind"))
+        for w in fn.writes():
+            if w.via or w.op == "rebind" or an.registry_field(w) is not None:
+                continue
+            fld = field_of(w.view)
+            if fld is not None:
+                out.append((w.stmt, w.node, w.view, fld, w.op))
+        return out
+
+    # -- who writes through self: initialisers (the object is not shared yet) and setters (judged where they are called) -------------
+    sites: list[tuple[FuncInfo, ast.stmt, ast.AST, Any, str, str]] = []     # (function, statement, node, view, field, how)
+    setters: dict[str, set[str]] = {}
+    n_init = 0
+    n_recv = 0
+    for f in an.functions:
+        me = self_of(f)
+        if me is not None or any(p.annotation is not None and _mentions_type(p.annotation, tnames) for p in f.params):
+            n_recv += 1
+        for st, node, view, fld, op in direct_writes(f):
+            if me is not None and view.kind == "P" and view.name == me:
+                if f.name in INITIALISERS:
+                    n_init += 1
+                    rep.ok("R08.11", f"{short(f)}::initialiser[{fld}]", norm(st)[:60], "the object under construction is not shared yet")
+                else:
+                    setters.setdefault(f.name, set()).add(fld)
+                continue
+            if typed_root(f, view, fld):
+                sites.append((f, st, node, view, fld, op))
+
+    def setter_calls(f: FuncInfo) -> list[tuple[ast.stmt, ast.Call]]:
+        fn = pfn(f)
+        return [(st, c) for st in fn.cfg.stmts() for c in walk_own(st)
+                if isinstance(c, ast.Call) and isinstance(c.func, ast.Attribute) and c.func.attr in setters]
+
+    for _ in range(4):   # a setter that calls a setter on self is a setter of those fields, too
+        grown = False
+        for f in an.functions:
+            me = self_of(f)
+            if me is None or f.name in INITIALISERS:
+                continue
+            for st, c in setter_calls(f):
+                if any(v.kind == "P" and v.name == me and not v.steps for v in pfn(f).views(c.func.value, st)):
+                    new = setters[c.func.attr] - setters.get(f.name, set())
+                    if new:
+                        setters.setdefault(f.name, set()).update(new)
+                        grown = True
+        if not grown:
+            break
+    for f in an.functions:
+        me = self_of(f)
+        for st, c in setter_calls(f):
+            for v in sorted(pfn(f).views(c.func.value, st), key=repr):
+                if me is not None and v.kind == "P" and v.name == me and not v.steps:
+                    if f.name in INITIALISERS:
+                        n_init += 1
+                        rep.ok("R08.11", f"{short(f)}::initialiser[{c.func.attr}()]", norm(c)[:60], "the object under construction is not shared yet")
+                    continue   # otherwise f is a setter itself: judged where it is called
+                for fld in sorted(setters[c.func.attr]):
+                    got = field_of(v, ("." + fld,))
+                    if got is not None and typed_root(f, v, got, c.func.attr):
+                        sites.append((f, st, c, v, got, f"{c.func.attr}()"))
+
+    # -- the verdict per write -----------------------------------------------------------------------------------------------------------
+    regions: dict[str, set[str]] = {}
+    for entry, _, _ in PROPERTY_COMPLETERS:
+        if ix.has_func(entry):
+            regions[entry] = {g.qual for g in region(ix, ix.func(entry), depth=4)}
+
+    def completes(f: FuncInfo, st: ast.stmt, v: Any, fld: str) -> bool:
+        if v.kind != "P" or v.steps and not all(s.startswith(".") for s in v.steps):
+            return False
+        errs = error_names(f.node)
+        cfg = pfn(f).cfg
+        for entry, fields, _ in PROPERTY_COMPLETERS:
+            if fld in fields and f.qual in regions.get(entry, ()):
+                after = cfg.reachable_from(st)
+                if not any(isinstance(n, ast.Return) and returns_error(n, errs) for n in after if n is not st):
+                    return True
+        return False
+
+    seen: set[tuple[str, int, str]] = set()
+    n_legit = 0
+    for f, st, node, v, fld, how in sites:
+        if (f.qual, id(node), fld) in seen:
+            continue
+        seen.add((f.qual, id(node), fld))
+        mod = f.module.name.replace("openapi_python_client.", "")
+        ok = completes(f, st, v, fld)
+        n_legit += ok
+        what = "an element of the registry" if v.kind in ("S", "U") else f"its parameter `{v.name}`"
+        rep.check(ok, "R08.11", f"property.{fld}::written-in-place[{mod}]",
+                  f"{short(f)} writes `{fld}` of a property object it was handed ({what}; {how}) in place: the object is shared with the "
+                  "registry, with the model that declares it and with every model that inherits it, so the change reaches pieces that have "
+                  "nothing to do with the one being built - and it stays when this piece is dropped afterwards (what remains then refers "
+                  "to a class or name of the piece that was removed)", where(f, node), lhs=norm(st)[:90],
+                  rhs="evolve(<property>, " + fld + "=...) / a writer of the frozen table: " + ", ".join(e for e, _, _ in PROPERTY_COMPLETERS))
+    rep.floor("property_typed_receivers", n_recv, 30)
+    rep.indexed["property_inplace_writes"] = len(seen)
+    rep.indexed["property_initialiser_writes"] = n_init
+    # positive control: a synthetic merge step that narrows the inherited property through a local alias must come out as a write
+    src = ("def _control_merge(prop1: PropertyProtocol, prop2: PropertyProtocol) -> 'PropertyProtocol | PropertyError':\n"
+           "    base = prop1\n"
+           "    base.name, base.required = prop2.name, True\n"
+           "    return base\n")
+    cnode = ast.parse(src).body[0]
+    cmod = classes[0].module
+    cf = FuncInfo("_control_merge", f"{cmod.name}.<control>._control_merge", cmod, None, cnode)  # type: ignore[arg-type]
+    fns[cf.qual] = _PFn(an, cf)
+    cws = [(st, v, fld) for st, _, v, fld, _ in direct_writes(cf) if fld in ("name", "required") and typed_root(cf, v, fld)]
+    rep.control("an in-place write on a handed property object is seen", len(cws) >= 2 and not any(completes(cf, st, v, fld) for st, v, fld in cws))
+
+
+# ---- R08.12: recorded diagnostics are returned entire -------------------------------------------------------------------------------
+
+EMPTY_MAKERS = {"dict", "list", "set", "defaultdict", "OrderedDict", "deque"}
+WHOLE_COPIES = {"dict", "list", "tuple", "set", "frozenset", "sorted", "reversed", "OrderedDict", "copy", "deepcopy", "cast", "iter"}
+ENTRY_REMOVERS = {"pop", "popitem", "clear", "remove", "discard", "popleft", "difference_update", "intersection_update"}
+PUTS = {"append", "extend", "add", "insert", "appendleft", "extendleft", "update", "setdefault"}
+CONTAINER_HEADS = {"list", "set", "dict", "deque", "sequence", "mutablesequence", "mapping", "mutablemapping", "iterable", "collection", "tuple", "frozenset"}
+NA = "n/a"
+WHOLE = "whole"
+
+
+def _error_stores(ix: Any) -> set[str]:
+    """fields of the package's classes that are declared as a container of error values (parse_errors: list[ParseError], ...)"""
+    out: set[str] = set()
+    for k in ix.classes.values():
+        for name, ann in k.fields.items():
+            for alt in _union_members(ann):
+                if isinstance(alt, ast.Subscript) and (dotted(alt.value) or "").rsplit(".", 1)[-1].lower() in CONTAINER_HEADS and \
+                        _mentions_type(alt.slice, ERROR_CLASSES):
+                    out.add(name)
+    return out
+
+
+def _is_empty_container(v: ast.AST | None) -> bool:
+    if isinstance(v, (ast.Dict, ast.List, ast.Set)):
+        return not (v.keys if isinstance(v, ast.Dict) else v.elts)
+    if isinstance(v, ast.Call):
+        last = call_name(v).rsplit(".", 1)[-1]
+        return last in EMPTY_MAKERS and (not v.args or last == "defaultdict") and not (v.keywords and last != "defaultdict")
+    return False
+
+
+def _entire(e: ast.AST | None, acc: str, lc: Locals, params: set[str], busy: frozenset[str] = frozenset(), depth: int = 16) -> str:
+    """How the value of e relates to the accumulator `acc`: WHOLE - it is the accumulator, a whole copy of it, or an object that was
+    handed it as a whole argument; NA - it does not come from the accumulator; otherwise the reason why entries can be missing."""
+    if e is None or depth <= 0:
+        return NA
+
+    def go(x: ast.AST | None, b: frozenset[str] = busy) -> str:
+        return _entire(x, acc, lc, params, b, depth - 1)
+
+    def combine(rs: list[str]) -> str:
+        bad = [r for r in rs if r not in (NA, WHOLE)]
+        return bad[0] if bad else (WHOLE if WHOLE in rs else NA)
+
+    if isinstance(e, ast.Name):
+        if e.id == acc:
+            return WHOLE
+        if e.id in busy or e.id in params:
+            return NA
+        return combine([go(v, busy | {e.id}) for kind, _, v in lc.defs.get(e.id, []) if kind == "assign" and v is not None])
+    if isinstance(e, (ast.Starred, ast.Await, ast.NamedExpr)):
+        return go(e.value)
+    if isinstance(e, ast.IfExp):
+        return combine([go(e.body), go(e.orelse)])
+    if isinstance(e, ast.BoolOp):
+        return combine([go(v) for v in e.values])
+    if isinstance(e, ast.BinOp):
+        return combine([go(e.left), go(e.right)])
+    if isinstance(e, (ast.List, ast.Tuple, ast.Set)):
+        return combine([go(x) for x in e.elts])
+    if isinstance(e, ast.Dict):
+        return combine([go(v) for k, v in zip(e.keys, e.values) if k is None])
+    if isinstance(e, ast.Subscript):
+        inner = go(e.value)
+        return inner if inner == NA or not isinstance(e.slice, ast.Slice) else f"a slice of it (line {e.lineno})" if inner == WHOLE else inner
+    if isinstance(e, (ast.DictComp, ast.ListComp, ast.SetComp, ast.GeneratorExp)):
+        srcs = [go(g.iter) for g in e.generators]
+        src = combine(srcs)
+        if src != WHOLE:
+            return src
+        if any(g.ifs for g in e.generators):
+            return f"a comprehension with a condition (line {e.lineno}): `{norm(e)[:60]}`"
+        kept = names_in(e.value) | names_in(e.key) if isinstance(e, ast.DictComp) else names_in(e.elt)
+        tg = set().union(*[names_in(g.target) for g in e.generators])
+        plain = all(isinstance(x, (ast.Name, ast.Tuple)) for x in ([e.key, e.value] if isinstance(e, ast.DictComp) else [e.elt]))
+        return WHOLE if plain and kept & tg else f"rebuilt entry by entry (line {e.lineno}): `{norm(e)[:60]}`"
+    if isinstance(e, ast.Call):
+        last = call_name(e).rsplit(".", 1)[-1]
+        args = [*e.args, *[k.value for k in e.keywords]]
+        if isinstance(e.func, ast.Attribute) and e.func.attr in ("copy", "items", "values") and not args:
+            return go(e.func.value)
+        if last in WHOLE_COPIES and e.args:
+            return go(e.args[-1] if last == "cast" else e.args[0])
+        if last in ("filter", "filterfalse", "takewhile", "dropwhile", "islice", "compress") and e.args:
+            inner = combine([go(a) for a in e.args])
+            return f"`{last}(...)` of it (line {e.lineno})" if inner == WHOLE else inner
+        return combine([go(a) for a in args])   # handed to a constructor / a step as a whole argument: entire
+    return NA
+
+
+def _diagnostics_returned_entire(rep: Report, ix: Any) -> None:
+    stores = _error_stores(ix)
+    rep.require(stores, "fields declared as containers of error values (e.g. parse_errors: list[ParseError])")
+    n_inst = 0
+    for f in ix.all_functions:
+        if not f.module.name.startswith("openapi_python_client.parser"):
+            continue
+        lc = Locals(f.node)
+        params = {p.arg for p in f.params}
+        accs = sorted(n for n, ds in lc.defs.items() if n not in params and any(k == "assign" and _is_empty_container(v) for k, _, v in ds))
+        if not accs:
+            continue
+        own = _own_nodes(f.node)
+        errs = error_names(f.node)
+        rets = [r for r in own if isinstance(r, ast.Return) and r.value is not None and not returns_error(r, errs)]
+
+        def is_error(a: ast.AST) -> bool:   # an error built on the spot, or a local that only ever holds one
+            if isinstance(a, ast.Name):
+                vs = lc.values_of(a.id)
+                return bool(vs) and a.id not in params and all(isinstance(v, ast.Call) and _is_error_ctor(v) for v in vs)
+            return isinstance(a, ast.Call) and _is_error_ctor(a)
+        for acc in accs:
+            # everything computed from the accumulator: objects taken out of it, lists of them, loop variables over them
+            mem = {acc}
+            changed = True
+            while changed:
+                changed = False
+                for n, ds in lc.defs.items():
+                    if n not in mem and n not in params and any(v is not None and names_in(v) & mem and not _is_predicate(v) for _, _, v in ds):
+                        mem.add(n)
+                        changed = True
+            recorded: set[str] = set()
+            for c in own:
+                if isinstance(c, ast.Call) and isinstance(c.func, ast.Attribute) and c.func.attr in PUTS and _root_name(c.func.value) in mem:
+                    recv = c.func.value
+                    if isinstance(recv, ast.Attribute) and recv.attr in stores:
+                        recorded.add(recv.attr)
+                    elif isinstance(recv, ast.Name) and recv.id == acc and any(is_error(a) for a in [*c.args, *[k.value for k in c.keywords]]):
+                        recorded.add("<error values>")
+                elif isinstance(c, (ast.Assign, ast.AugAssign)):
+                    for t in (c.targets if isinstance(c, ast.Assign) else [c.target]):
+                        base = t.value if isinstance(t, ast.Subscript) else t
+                        if isinstance(base, ast.Attribute) and base.attr in stores and _root_name(base) in mem and base is not t or \
+                                (isinstance(c, ast.AugAssign) and isinstance(base, ast.Attribute) and base.attr in stores and _root_name(base) in mem):
+                            recorded.add(base.attr)
+                        elif isinstance(t, ast.Subscript) and isinstance(base, ast.Name) and base.id == acc and is_error(c.value):
+                            recorded.add("<error values>")
+            if not recorded:
+                continue
+            reasons: list[str] = []
+            handed = 0
+            for r in rets:
+                elts = list(r.value.elts) if isinstance(r.value, ast.Tuple) else [r.value]
+                got = [_entire(x, acc, lc, params) for x in elts]
+                if all(g == NA for g in got):
+                    continue
+                handed += 1
+                if WHOLE not in got:
+                    reasons += [g for g in got if g != NA]
+            if not handed:
+                continue   # the accumulator is not (part of) what this function returns: how it is handed on is R08.8's question
+            n_inst += 1
+            # the accumulator's own name bound again: to all of what it held (a whole copy), or entries are gone
+            for kind, _, v in lc.defs.get(acc, []):
+                if kind == "assign" and v is not None and not _is_empty_container(v):
+                    how = _entire(v, acc, lc, params, frozenset({acc}))
+                    if how not in (WHOLE, NA):   # (bound to something that does not come from it: not an accumulator there, not judged)
+                        reasons.append(how)
+            whole_names = {acc} | {n for n in lc.defs if n not in params and _entire(ast.Name(id=n, ctx=ast.Load()), acc, lc, params) == WHOLE}
+            for c in own:
+                if isinstance(c, ast.Delete):
+                    reasons += [f"entries are deleted from it (line {c.lineno})" for t in c.targets
+                                if isinstance(t, ast.Subscript) and isinstance(t.value, ast.Name) and t.value.id in whole_names]
+                elif isinstance(c, ast.Call) and isinstance(c.func, ast.Attribute) and c.func.attr in ENTRY_REMOVERS and \
+                        isinstance(c.func.value, ast.Name) and c.func.value.id in whole_names:
+                    reasons.append(f"entries are removed from it (line {c.lineno}): `{norm(c)[:50]}`")
+            rep.check(not reasons, "R08.12", f"{short(f)}::diagnostics-returned-entire[{', '.join(sorted(recorded))}]",
+                      "diagnostics of omitted pieces are recorded in a local accumulator, but what the function returns is not that "
+                      f"accumulator entire ({'; '.join(sorted(set(reasons)))[:200]}): an entry that is dropped takes the diagnostics stored on it "
+                      "along - the piece is omitted and nothing says so", where(f, rets[-1] if rets else f.node),
+                      lhs=sorted(set(reasons))[:4], rhs="the accumulator itself under any name, a whole copy, or a whole argument")
+    rep.floor("diagnostic_accumulators_returned", n_inst, 1)
